@@ -218,6 +218,38 @@ def reproduce(ctx, sc, inv, attempt=0):
     return any(v["inv"] == inv for v in viol)
 
 
+TWIN_INVS = {
+    "C01": {"TwinSuccessComplete", "TwinEdgesResolvable", "TwinRootTagged", "TwinReturnedRoot", "TwinBothReturned"},
+    "C02": {"TwinClosedAtPush", "TwinPushAfterSucc", "TwinClosedFinal", "TwinNoSpuriousError", "TwinNoHang"},
+}
+
+
+def twin(ctx, replay=None):
+    """Two concurrent Copy calls of one root into one destination (harness/copyfam/twin_test.go, spec/TwinMon.tla)."""
+    out = ctx.sub("twin")
+    env = {"VH_OUT": out, "VH_SEED": ctx.seed, "VH_TWIN": 400 if ctx.quick else 20000}
+    if replay:
+        env["VH_REPLAY"] = replay
+    r = go_test(ctx, "copyfam", "TestTwin", env, timeout=3000)
+    summ = json.load(open(os.path.join(out, "summary.json")))
+    log("  twin copies: %d executions, %d hangs (%.1fs)" % (summ["executions"], summ["hangs"], r["wall_s"]))
+    viol = monitor(ctx, "TwinMon", summ["files"], label="L3")
+    known = set().union(*TWIN_INVS.values())
+    unowned = sorted({v["inv"] for v in viol} - known)
+    if unowned:
+        raise Infra("judgements of TwinMon.tla that no property owns failed: %s" % unowned)
+    scen = {s["id"]: s for s in read_ndjson(os.path.join(out, "scenarios.ndjson"))}
+    seen = set()
+    for v in viol:
+        if v["inv"] not in TWIN_INVS[ctx.pid] or (v["inv"], v["t"]) in seen:
+            continue
+        seen.add((v["inv"], v["t"]))
+        tr = trace_of(v["file"], v["t"], 400)
+        report(ctx, "twin-copy", v["inv"], scen[v["t"]], tr[-14:], what="%s failed in twin copy %d (dst %s, root %d)" % (
+            v["inv"], v["t"], scen[v["t"]]["dstkind"], scen[v["t"]]["root"]))
+    return summ["executions"]
+
+
 def run(ctx, replay=None):
     pid = ctx.pid
     invs = INVS[pid]
@@ -226,6 +258,9 @@ def run(ctx, replay=None):
         d = ctx.sub("replay")
         p = os.path.join(d, "scen.ndjson")
         open(p, "w").write(json.dumps(body["scenario"]) + "\n")
+        if body["scenario"].get("api") == "twincopy":
+            twin(ctx, replay=p)
+            return {}
         out, summ = drive(ctx, "", replay=p)
         judge(ctx, out, summ, invs, confirm=False)
         return finish(ctx, summ, None, {})
@@ -233,7 +268,10 @@ def run(ctx, replay=None):
     out, summ = drive(ctx, PLANS[(pid, ctx.tier)])
     judge(ctx, out, summ, invs)
     conf = run_l2(ctx, summ["files"]) if pid in ("C01", "C02", "C04") else None
-    return finish(ctx, summ, conf, {})
+    extra = {}
+    if pid in TWIN_INVS:
+        extra["twin_copy_executions"] = twin(ctx)
+    return finish(ctx, summ, conf, extra)
 
 
 def finish(ctx, summ, conf, extra):
